@@ -180,17 +180,19 @@ def missing_avps(r1: int, r2: int, r3: int) -> bool:
 # ----------------------------------------------------------------------------- B. routing dimensions
 def routing(ai: int, ri: int, sender: int, raises: bool) -> bool:
     """
-    pre: 0 <= ai <= 2 and 0 <= ri <= 2 and 0 <= sender <= 3
+    pre: 0 <= ai <= 2 and 0 <= ri <= 3 and 0 <= sender <= 3
     post: _
     """
     hx.begin()
     cfg = P["cfg"]
     app_id = [4, 3, 9][hx.concretize_range(ai, 0, 3)]
-    realm = [B.REALM, "extra.realm", "foreign.realm"][hx.concretize_range(ri, 0, 3)]
+    # 'known.realm': a peer of that realm is configured (add_peer) but no application serves it and it is not a default peer
+    realm = [B.REALM, "extra.realm", "foreign.realm", "known.realm"][hx.concretize_range(ri, 0, 4)]
     snd = hx.concretize_range(sender, 0, 4)
     inputs = (ai, ri, sender, raises)
     try:
         b = _bench(cfg)
+        b.node.add_peer("aaa://peer9.known.realm", "known.realm", ip_addresses=["10.0.7.7"])
         for a in b.apps:
             a.raise_in_handler = bool(raises)
         c = _ready_conn(b, snd)
